@@ -310,6 +310,34 @@ let keys_line l =
   done;
   print_endline (Buffer.contents out)
 
+(* infer case (contract inference, model M10): fuel param nvals {kind x lenpos nedges edges}* nblocks
+   {npreds preds nsuccs succs nphis phis hasif iseq x y hasret ret}*   -> I (inferred) | N | F (out of fuel) *)
+let infer_line l =
+  let a = Array.of_list (ints_of_line l) in
+  let pos = ref 0 in
+  let next () = let v = a.(!pos) in incr pos; v in
+  let nat = nat_of_int in
+  let fuel = next () in
+  let param = next () in
+  let nv = next () in
+  let vals = List.init nv (fun _ ->
+    let k = next () in let x = next () in let lp = next () in let ne = next () in
+    let edges = List.init ne (fun _ -> nat (next ())) in
+    match k with
+    | 0 -> IVParam | 1 -> IVNil | 2 -> IVConstUnk | 3 -> IVNonNil | 4 -> IVChg (nat x) | 5 -> IVMk (nat x) | 6 -> IVSlice (nat x)
+    | 7 -> IVS2AP (nat x, lp = 1) | 8 -> IVAppend1 (nat x) | 9 -> IVAppendN | 10 -> IVPhi edges | _ -> IVOther) in
+  let nb = next () in
+  let blocks = List.init nb (fun _ ->
+    let lst () = let n = next () in List.init n (fun _ -> nat (next ())) in
+    let preds = lst () in let succs = lst () in let phis = lst () in
+    let hasif = next () in let iseq = next () in let x = next () in let y = next () in
+    let hasret = next () in let ret = next () in
+    { ib_preds = preds; ib_succs = succs; ib_phis = phis;
+      ib_if = (if hasif = 1 then Some ((iseq = 1, nat x), nat y) else None);
+      ib_ret = (if hasret = 1 then Some (nat ret) else None) }) in
+  let f = { if_param = nat param; if_vals = vals; if_blocks = blocks } in
+  print_endline (match infer f (nat fuel) with IInferred -> "I" | INotInferred -> "N" | INoFuel -> "F")
+
 let () =
   let mode = if Array.length Sys.argv > 1 then Sys.argv.(1) else "engine" in
   try
@@ -324,6 +352,7 @@ let () =
          | "paths" -> paths_line l
          | "minigo" -> minigo_line l
          | "keys" -> keys_line l
+         | "infer" -> infer_line l
          | _ -> failwith "unknown mode")
     done
   with End_of_file -> ()
